@@ -187,6 +187,7 @@ func packSideEntries(p *Prog) []*ssa.Function {
 func ruleC16Globals(c *Checker) {
 	const R = "C16.globals"
 	c.rule(R, "No store outside package initialisation writes into storage reachable from a package-level variable (the variable itself, the backing array / map / pointee of a reference loaded from it, or a sync / sync/atomic container kept in one, through its mutating methods) in any function reachable from Pack, Unpack or the ignore-file parser; append aliases only its first argument. Earlier calls therefore cannot change later ones.", 1)
+	c.absence(R)
 	p := c.P
 	entries := packSideEntries(p)
 	if len(entries) == 0 {
@@ -251,6 +252,7 @@ func ruleC16Globals(c *Checker) {
 func ruleC16ProcState(c *Checker) {
 	const R = "C16.procstate"
 	c.rule(R, "Nothing reachable from Pack, Unpack or the ignore parser changes process-global state (os.Chdir, os.Setenv/Unsetenv/Clearenv, syscall.Umask, os.Exit …) or reads the environment / working directory other than through filepath.Abs.", 1)
+	c.absence(R)
 	p := c.P
 	entries := packSideEntries(p)
 	n := 0
